@@ -23,7 +23,8 @@ all:
 coq/Makefile.coq: coq/_CoqProject
 	cd coq && coq_makefile -f _CoqProject -o Makefile.coq
 
-REPO ?= /repo
+# (RTAMT_REPO points a check at another tree, e.g. a scratch worktree with a seeded change: the translators read the same tree)
+REPO ?= $(or $(RTAMT_REPO),/repo)
 # generated parts of the model, rewritten from the source tree on every build; a generator that fails leaves the checked-in file alone
 gen:
 	@mkdir -p build/status
